@@ -79,7 +79,11 @@ def case_st(draw):
             'ctype': draw(st.sampled_from(CTYPES)),
             'pattern': draw(st.one_of(st.just([]), st.lists(st.integers(1, 9), min_size=1, max_size=4), st.lists(st.integers(1, 40), min_size=1, max_size=4))),
             'copy': draw(st.integers(0, 4)) == 0,
+            'requery': draw(st.sampled_from([None, None, None, encode_pairs(REQUERY_PAIRS, [0, 1])])),
             'pre': draw(st.sampled_from([None, None, None, 'read_all', 'seek_end', 'json', ['read', 1], ['read', 7], ['read', 10000]]))}
+
+
+REQUERY_PAIRS = [('z', '1'), ('k', 'new value'), ('z', '2')]
 
 
 def _plain(d):
@@ -125,6 +129,14 @@ def check_case(ctx, case):
         seen['params'] = _plain(rq.params)
         seen['GET'] = _plain(rq.GET)
         seen['POST'] = _plain(rq.POST)
+        if case.get('requery') is not None:
+            # the handler replaces the query string through the request object after every view of it was read: all views follow
+            rq['QUERY_STRING'] = case['requery']
+            seen['query2'] = _plain(rq.query)
+            seen['GET2'] = _plain(rq.GET)
+            seen['params2'] = _plain(rq.params)
+            seen['forms2'] = _plain(rq.forms)
+            return 'ok'
         if case.get('copy'):
             # a copy of the request taken after the original has parsed its form: the copy decodes the same pairs
             c = rq.copy()
@@ -144,7 +156,12 @@ def check_case(ctx, case):
     headers = {'Content-Type': ctype} if ctype else {}
     eq, ef = expected_map(q), expected_map(f)
     want = {'query': eq, 'GET': eq, 'forms': ef, 'POST': ef, 'params': {**eq, **ef}}
-    if case.get('copy'):
+    if case.get('requery') is not None:
+        from ombott.request_pkg.helpers import parse_qsl as _pq
+        eq2 = expected_map(REQUERY_PAIRS)
+        want.update({'query2': eq2, 'GET2': eq2, 'params2': {**eq2, **ef}, 'forms2': ef})
+        ctx.count('query_string_replaced_after_it_was_read')
+    if case.get('copy') and case.get('requery') is None:
         want.update({'copy_forms': ef, 'copy_query': eq, 'copy_params': {**eq, **ef}})
         ctx.count('request_copied_after_the_form_was_read')
     for reqno in (0, 1):
@@ -292,6 +309,14 @@ def run(ctx):
             for pre in (None, 'read_all', ['read', 7]):
                 ctx.guarded(check_case, {'query': [['q', '1'], ['q', '2']], 'form': [['first', 'one two'], ['k', 'é&='], ['first', '2']], 'style': [1, 1, 2], 'chunked': chunked,
                                          'method': 'POST', 'ctype': 'application/x-www-form-urlencoded', 'pre': pre, 'copy': True})
+        # a name that occurs several times in the query AND in the form (and 0-3 times each); the query string replaced after it was read
+        for nq in (0, 1, 2, 3):
+            for nf in (0, 1, 2, 3):
+                for chunked in (False, True):
+                    base_case = {'query': [['a', 'q%d' % i] for i in range(nq)] + [['only_q', '1']], 'form': [['a', 'f%d' % i] for i in range(nf)] + [['only_f', '2']], 'style': [0, 1, 2],
+                                 'chunked': chunked, 'method': 'POST', 'ctype': 'application/x-www-form-urlencoded'}
+                    ctx.guarded(check_case, base_case)
+                    ctx.guarded(check_case, dict(base_case, requery=encode_pairs(REQUERY_PAIRS, [0, 1])))
         for pattern in ([1], [7], [16], [37], [3, 1]):
             for chunked in (False, True):
                 ctx.guarded(check_case, {'query': [['q', '1']], 'form': [['name', 'J%'], ['k', 'é&='], ['name', '2'], ['last', 'x' * 30]], 'style': [0, 1, 2], 'chunked': chunked,
